@@ -152,12 +152,17 @@ func (m *Transport) Read(p []byte) (int, error) {
 		t.Daemon = prevDaemon
 	}
 	m.Reads++
-	if m.IsClosed {
-		// a read on a closed transport changes nothing (keeps spinning read loops detectable):
-		// logged once, not counted as a mutation
-		if n := len(m.Log); n == 0 || m.Log[n-1].Kind != 'R' || !m.Log[n-1].Closed {
-			m.Log = append(m.Log, Ev{Kind: 'R', Step: step(), Now: now(), Thread: thr(), Failed: true, Closed: true})
+	// A failing read that repeats the previous failing read changes nothing: it is logged once
+	// and not counted as a mutation (keeps spinning read loops detectable by the scheduler).
+	failed := func() {
+		if n := len(m.Log); n > 0 && m.Log[n-1].Kind == 'R' && m.Log[n-1].Failed && m.Log[n-1].Closed == m.IsClosed {
+			return
 		}
+		m.Log = append(m.Log, Ev{Kind: 'R', Step: step(), Now: now(), Thread: thr(), Failed: true, Closed: m.IsClosed})
+		vsched.Mutated()
+	}
+	if m.IsClosed {
+		failed()
 		return 0, ErrClosed("read")
 	}
 	if m.FailReadAt > 0 && m.Reads == m.FailReadAt {
@@ -181,7 +186,7 @@ func (m *Transport) Read(p []byte) (int, error) {
 		}
 		return n, nil
 	}
-	m.ev('R', nil, 0, true)
+	failed()
 	if m.ReadErr != nil {
 		return 0, m.ReadErr
 	}
